@@ -10,7 +10,7 @@ import (
 func init() { registry["C17"] = checkC17 }
 
 func checkC17(c *Check) {
-	c.Explanation = "Decided on all paths of the cert module: (R1) a certificate is stored only under a key that store.Has reported free, the key being (owner, serial of the parsed certificate); (R2) the write is dominated by a successful ParseAndValidateCertificate(owner, cert, pubkey) whose success returns are dominated by owner.Equals(address parsed from the certificate's Subject common name); the handler passes the signer as owner; the stored bytes are the submitted ones; (R3) the only state constants ever assigned are valid (constructor) and revoked (dominated by found and not-already-revoked); nothing deletes from the cert store; (R4) key codec agreement: the minimum key length the reader accepts is not larger than the minimum length the writer can produce (layout extraction; big.Int.Bytes() may be empty), and the reader slices at the writer's boundary; (R5) every explicit panic reachable in the cert keeper is either guarded by the error of an infallible writer or discharged by R4; (R6) listings pair key and value of the same iterator element, restore the owner prefix they stripped, compare the stored state, and the pagination callback reports a hit iff the filter matches (never depending on the accumulate flag)."
+	c.Explanation = "Decided on all paths of the cert module: (R1) a certificate is stored only under a key that store.Has reported free, the key being (owner, serial of the parsed certificate); (R2) the write is dominated by a successful ParseAndValidateCertificate(owner, cert, pubkey) whose success returns are dominated by owner.Equals(address parsed from the certificate's Subject common name); the handler passes the signer as owner; the stored bytes are the submitted ones; (R3) the only state constants ever assigned are valid (constructor) and revoked (dominated by found and not-already-revoked); nothing deletes from the cert store, and a genesis export / import cycle keeps each certificate's state; (R4) key codec agreement: the minimum key length the reader accepts is not larger than the minimum length the writer can produce (layout extraction; big.Int.Bytes() may be empty), and the reader slices at the writer's boundary; (R5) every explicit panic reachable in the cert keeper is either guarded by the error of an infallible writer or discharged by R4; (R6) listings pair key and value of the same iterator element, restore the owner prefix they stripped, compare the stored state, and the pagination callback reports a hit iff the filter matches (never depending on the accumulate flag)."
 	c.NotDecided = "pagination arithmetic inside the SDK; x509 parsing"
 	l := c.L
 	kpkg := "x/cert/keeper"
@@ -218,6 +218,7 @@ func checkC17(c *Check) {
 	c.keyLayoutsRule("R4", []string{kpkg}, 1, 0)
 	c.serialBaseRule("R4")
 	c.keeperIterators(kpkg)
+	c.certGenesisRoundTrip("R3")
 	// lookup by (owner, serial) answers "not found" only on a store miss: whatever CreateCertificate accepted and
 	// stored under certificateKey(id) is found again (no extra rejection of ids in the reader)
 	{
@@ -541,4 +542,63 @@ func (c *Check) keeperIterators(kpkg string) {
 	if n < 4 {
 		c.Fail("C17-R6 lost instances: %d keeper iterators", n)
 	}
+}
+
+// certGenesisRoundTrip: what ExportGenesis writes into a genesis certificate record, InitGenesis reads back. The
+// import path re-creates records through the keeper's constructor, which stores every certificate as valid; that is
+// only harmless while the export emits no stored record. Once the export copies stored certificates (with their
+// state) into the genesis file, an import that does not read the state turns every revoked certificate valid again.
+func (c *Check) certGenesisRoundTrip(rule string) {
+	l := c.L
+	exp := l.Func("x/cert", "", "ExportGenesis")
+	imp := l.Func("x/cert", "", "InitGenesis")
+	c.Analysed(fnName(exp))
+	c.Analysed(fnName(imp))
+	exportsStored := false
+	for _, g := range fnAndClosuresDeep(exp) {
+		eachInstr(g, func(i ssa.Instruction) {
+			st, ok := i.(*ssa.Store)
+			if !ok {
+				return
+			}
+			fa, ok := st.Addr.(*ssa.FieldAddr)
+			if !ok {
+				return
+			}
+			tn, f := structFieldOf(fa)
+			if strings.HasSuffix(tn, "cert/types.GenesisCertificate") && f == "Certificate" {
+				if _, isConst := st.Val.(*ssa.Const); !isConst {
+					exportsStored = true
+				}
+			}
+		})
+	}
+	if !exportsStored {
+		c.Ob(rule, "genesis export/import keeps a certificate's state (the export emits no stored certificate)", exp.Pos(), true, "")
+		return
+	}
+	readsState := false
+	for _, g := range fnAndClosuresDeep(imp) {
+		eachInstr(g, func(i ssa.Instruction) {
+			switch x := i.(type) {
+			case *ssa.FieldAddr:
+				tn, f := structFieldOf(x)
+				if strings.HasSuffix(tn, "cert/types.Certificate") && f == "State" {
+					readsState = true
+				}
+			case *ssa.Field:
+				if strings.HasSuffix(x.X.Type().String(), "cert/types.Certificate") && fieldName(x.X.Type(), x.Field) == "State" {
+					readsState = true
+				}
+			case ssa.CallInstruction:
+				// the whole stored record handed on (to a keeper function that can keep its state)
+				for _, a := range x.Common().Args {
+					if strings.HasSuffix(a.Type().String(), "cert/types.Certificate") {
+						readsState = true
+					}
+				}
+			}
+		})
+	}
+	c.Ob(rule, "genesis export/import keeps a certificate's state", imp.Pos(), readsState, "ExportGenesis writes stored certificates (state included) into the genesis file, InitGenesis never reads the state and re-creates each one as valid: a revoked certificate is valid again after an export / import cycle")
 }
